@@ -66,8 +66,17 @@ fn unique(ty: u8, index: u16, serial: u32, global: u32, fsel: u8, timed: bool) -
         5 | 6 => Value::Ana(((index as i32 % 30) * 1000 + (s % 1000) as i32 - 500) as f64),
         _ => Value::Oct(vec![ty, index as u8, s as u8, (s >> 8) as u8, global as u8]),
     };
-    let flags = if ty == 7 { 0 } else { [0x01u8, 0x01, 0x03, 0x11, 0x21, 0x05, 0x09, 0x00][(fsel % 8) as usize] | (((s as u8) & 1) << 1) };
-    let time = if ty == 7 || !timed { None } else { Some((1_000_000 + global as u64 * 7, true)) };
+    let flags = if ty == 7 {
+        0
+    } else {
+        [0x01u8, 0x01, 0x03, 0x11, 0x21, 0x05, 0x09, 0x00][(fsel % 8) as usize]
+            | (((s as u8) & 1) << 1)
+    };
+    let time = if ty == 7 || !timed {
+        None
+    } else {
+        Some((1_000_000 + global as u64 * 7, true))
+    };
     Rec { value, flags, time }
 }
 
@@ -114,7 +123,15 @@ fn absorb(rig: &mut PairRig, w: &mut World, out: &mut CaseOut) {
             println!("outstation callback t={_t} {:?}", cb);
         }
         if let Cb::Mirror(ty, index, v, time, info) = cb {
-            let rec = Rec { value: if ty == 2 { Value::Bool(v != 0.0) } else { Value::Ana(v) }, flags: 0x01, time: Some((time, true)) };
+            let rec = Rec {
+                value: if ty == 2 {
+                    Value::Bool(v != 0.0)
+                } else {
+                    Value::Ana(v)
+                },
+                flags: 0x01,
+                time: Some((time, true)),
+            };
             if info != UpdateInfo::NoPoint {
                 w.hist.entry((ty, index)).or_default().push(rec.clone());
                 w.cur.insert((ty, index), rec.clone());
@@ -142,19 +159,29 @@ fn check_authentic(w: &World, from: usize, out: &mut CaseOut) {
             return;
         }
         let Some(h) = w.hist.get(&(*ty, item.index)) else {
-            fail(out, "S1-fabricated", format!("t={t}: the handler received {name}[{}] (g{g}v{v}) but no such point exists", item.index));
+            fail(
+                out,
+                "S1-fabricated",
+                format!(
+                    "t={t}: the handler received {name}[{}] (g{g}v{v}) but no such point exists",
+                    item.index
+                ),
+            );
             return;
         };
         let mut why = String::new();
-        let ok = h.iter().rev().any(|rec| match carry_check(*ty, *g, *v, rec, item) {
-            Ok(_) => true,
-            Err(e) => {
-                if why.is_empty() {
-                    why = e;
+        let ok = h
+            .iter()
+            .rev()
+            .any(|rec| match carry_check(*ty, *g, *v, rec, item) {
+                Ok(_) => true,
+                Err(e) => {
+                    if why.is_empty() {
+                        why = e;
+                    }
+                    false
                 }
-                false
-            }
-        });
+            });
         if !ok {
             fail(out, "S1-authentic", format!("t={t}: the handler received {name}[{}] via g{g}v{v} ({}) = {:?}, which the point never held ({} records; latest mismatch: {why})", item.index, if *is_event { "event" } else { "static" }, item, h.len()));
             return;
@@ -432,11 +459,24 @@ pub fn run_case(case: &Case) -> CaseOut {
 }
 
 fn point() -> impl Strategy<Value = PointSpec> {
-    (0u8..8, prop_oneof![4 => 0u16..12, 1 => Just(255u16), 1 => Just(256u16), 1 => Just(65535u16)], 1u8..=3, any::<u8>(), any::<u8>()).prop_map(|(ty, index, class, s, e)| {
-        let sv = STATIC_VARS[ty as usize];
-        let ev = EVENT_VARS[ty as usize];
-        PointSpec { ty, index, class, svar: sv[s as usize % sv.len()], evar: ev[e as usize % ev.len()] }
-    })
+    (
+        0u8..8,
+        prop_oneof![4 => 0u16..12, 1 => Just(255u16), 1 => Just(256u16), 1 => Just(65535u16)],
+        1u8..=3,
+        any::<u8>(),
+        any::<u8>(),
+    )
+        .prop_map(|(ty, index, class, s, e)| {
+            let sv = STATIC_VARS[ty as usize];
+            let ev = EVENT_VARS[ty as usize];
+            PointSpec {
+                ty,
+                index,
+                class,
+                svar: sv[s as usize % sv.len()],
+                evar: ev[e as usize % ev.len()],
+            }
+        })
 }
 
 fn op() -> impl Strategy<Value = Op> {
@@ -498,7 +538,13 @@ impl Prop for Converge {
         run_case(case)
     }
     fn floors() -> Vec<(&'static str, u32)> {
-        vec![("events", 500), ("cut", 200), ("overflow", 100), ("multi_fragment", 25), ("mid_frame_cut", 50)]
+        vec![
+            ("events", 500),
+            ("cut", 200),
+            ("overflow", 100),
+            ("multi_fragment", 25),
+            ("mid_frame_cut", 50),
+        ]
     }
 }
 
